@@ -405,4 +405,39 @@ Proof.
 Qed.
 End FLAT.
 
+(* the same with the hit cases fixed BEFORE any layout or state: one list eh, a static datum of
+   the image, gives the executed-instruction count of every run *)
+Theorem plain_image_from_files_static c script img :
+  successful c script img -> plain c -> (uses_tramp (c_variant c) = true -> c_data_reg c <> 6) ->
+  exists eh, map fst eh = im_elements img /\ Forall (fun x => hit_ok (fst x) (snd x)) eh /\
+  forall L s0, Init c img (Ntot c img) L s0 -> code_lo L = int_start_al c ->
+    code_hi L - code_lo L < 2147483648 - 2048 -> pics_encodable img ->
+    (forall r o, In (r, o) int_slots -> 0 <= rget s0 r < W64) ->
+    exists s', run (gv c) L (image_steps c img eh) s0 = (Next s', image_steps c img eh) /\ pc s' = halt_at L /\
+      (forall r, 0 <= r -> wr c r = false -> ~ clob c r -> rget s' r = rget s0 r) /\
+      mem_frame c L s0 s' (stk_hi L - Ntot c img) (stk_hi L) /\ dom s' = 0 /\ cfi s' = [].
+Proof.
+  intros Hs Hp H6. destruct (plain_image_steps_static c script img Hs Hp H6) as (eh & E1 & E2 & H).
+  exists eh. split; [exact E1|]. split; [exact E2|].
+  intros L s0 HI Hat Hsm Hpe Hsaved.
+  destruct (i_sp _ _ _ _ _ HI) as (Hsp & Hsal & Hbnd & Hslo & Hs64).
+  destruct (i_ra _ _ _ _ _ HI) as (Hra & Hhal & Hhr & _).
+  destruct (i_data _ _ _ _ _ HI) as (Hdr & _).
+  destruct (i_dom _ _ _ _ _ HI) as [Hdom Hcfi].
+  destruct (H L (flat_placed c script img Hs L s0 _ HI Hat Hsm) (flat_placed2 c script img Hs L s0 _ HI Hat Hpe) s0)
+    as (s' & R & P & Rg & M & D & Cf).
+  - rewrite Hsp. exact Hsal.
+  - rewrite Hsp. lia.
+  - rewrite Hsp. lia.
+  - rewrite Hsp. lia.
+  - exact Hsaved.
+  - rewrite (i_pc _ _ _ _ _ HI). exact Hat.
+  - exact (flat_loaded c script img Hs L s0 _ HI Hat).
+  - constructor; [exact Hdr|]. unfold gv. destruct Hp as [E|E]; rewrite E; exact I.
+  - exists s'. split; [exact R|]. split.
+    + rewrite P, Hra, Z.add_0_r, u64_small by lia. clear - Hhal. Z.div_mod_to_equations; lia.
+    + split; [exact Rg|]. rewrite Hsp in M. split; [exact M|]. split; congruence.
+Qed.
+
 Print Assumptions plain_image_from_files.
+Print Assumptions plain_image_from_files_static.
